@@ -110,6 +110,7 @@ def rule_lexer(ctx):
     ctx.floor(R, n_alt, 6)
     _lexer_slots(ctx, R, tree, rel)
     _lexer_cache_key(ctx, R, tree, rel)
+    _trailing_newline(ctx, R, tree, rel)
 
 
 def _lexer_cache_key(ctx, R, tree, rel):
@@ -163,12 +164,74 @@ def _lexer_cache_key(ctx, R, tree, rel):
                         it = consts.get(it.id) if isinstance(it, ast.Name) else it
                         if isinstance(it, (ast.Tuple, ast.List)):
                             key_attrs |= {e.value for e in it.elts if isinstance(e, ast.Constant)}
+    # operator.attrgetter('a', 'b', ...)(environment), the getter possibly held in a module-level name
+    getters = {t.id: n.value for n in tree.body if isinstance(n, ast.Assign) and isinstance(n.value, ast.Call)
+               and ast.unparse(n.value.func) in ("attrgetter", "operator.attrgetter") for t in n.targets if isinstance(t, ast.Name)}
+    for n in ast.walk(key_node):
+        if isinstance(n, ast.Call) and [ast.unparse(a) for a in n.args] == [env_param]:
+            g_ = getters.get(n.func.id) if isinstance(n.func, ast.Name) else (n.func if isinstance(n.func, ast.Call) and ast.unparse(n.func.func) in ("attrgetter", "operator.attrgetter") else None)
+            if g_ is not None:
+                key_attrs |= {a.value for a in g_.args if isinstance(a, ast.Constant) and isinstance(a.value, str) and "." not in a.value}
     ctx.unit("lexer_environment_reads", sorted(reads))
     missing = sorted(reads - key_attrs)
     ok = bool(reads) and not missing
     ctx.ob(R, rel, f"get_lexer :: the cache key covers the {len(reads)} environment attributes the Lexer is built from", ok,
            "" if ok else f"{missing} shape the lexer but are not part of the key: a second environment that differs only there is handed the first one's lexer "
            "(ordinary templates are then lexed differently from stock Jinja2)", gl.lineno)
+
+
+def _trailing_newline(ctx, R, tree, rel):
+    """tokeniter drops every line terminator (splitlines + join) and, with keep_trailing_newline, puts one final line break back: the
+    terminators it tests the end of the source for must be the language of the module's own newline_re - a style left out loses its
+    final newline (stock Jinja2 keeps it), one added makes a newline out of text that is none"""
+    from checks.C15 import _regex_language
+    pat = next((n.value.args[0].value for n in tree.body if isinstance(n, ast.Assign) and any(isinstance(t, ast.Name) and t.id == "newline_re" for t in n.targets)
+                and isinstance(n.value, ast.Call) and n.value.args and isinstance(n.value.args[0], ast.Constant)), None)
+    lexer_cls = next((n for n in tree.body if isinstance(n, ast.ClassDef) and n.name == "Lexer"), None)
+    ti = next((n for n in lexer_cls.body if isinstance(n, ast.FunctionDef) and n.name == "tokeniter"), None) if lexer_cls is not None else None
+    if pat is None or ti is None:
+        raise AnalysisError("anchor missing: newline_re / Lexer.tokeniter")
+    lang = _regex_language(pat)
+    if not lang:
+        raise AnalysisError(f"anchor changed: newline_re {pat!r} is not a finite alternation")
+    src = ti.args.args[1].arg
+    site = next((n for n in ast.walk(ti) if isinstance(n, ast.If) and "keep_trailing_newline" in ast.unparse(n.test)), None)
+    if site is None:
+        raise AnalysisError("anchor missing: keep_trailing_newline handling in Lexer.tokeniter")
+    tested = set()
+    understood = False
+    for c in ast.walk(site):
+        if isinstance(c, ast.Call) and isinstance(c.func, ast.Attribute) and c.func.attr == "endswith" and ast.unparse(c.func.value) == src and c.args:
+            a = c.args[0]
+            if isinstance(a, ast.Constant) and isinstance(a.value, str):
+                tested.add(a.value)
+                understood = True
+            elif isinstance(a, (ast.Tuple, ast.List)) and all(isinstance(e, ast.Constant) for e in a.elts):
+                tested |= {e.value for e in a.elts}
+                understood = True
+            elif isinstance(a, ast.Name):
+                for lp in ast.walk(site):
+                    if isinstance(lp, ast.For) and isinstance(lp.target, ast.Name) and lp.target.id == a.id and isinstance(lp.iter, (ast.Tuple, ast.List)) \
+                            and all(isinstance(e, ast.Constant) for e in lp.iter.elts):
+                        tested |= {e.value for e in lp.iter.elts}
+                        understood = True
+        if isinstance(c, ast.Compare) and len(c.ops) == 1 and isinstance(c.ops[0], ast.In) and ast.unparse(c.left) in (f"{src}[-1]", f"{src}[-1:]"):
+            r = c.comparators[0]
+            if isinstance(r, ast.Constant) and isinstance(r.value, str):
+                tested |= set(r.value)
+                understood = True
+            elif isinstance(r, (ast.Tuple, ast.List, ast.Set)) and all(isinstance(e, ast.Constant) for e in r.elts):
+                tested |= {e.value for e in r.elts}
+                understood = True
+    if not understood:
+        raise AnalysisError("anchor changed: how Lexer.tokeniter tests the end of the source for a line terminator")
+    uncovered = sorted(l for l in lang if not any(l.endswith(t_) for t_ in tested if t_))
+    foreign = sorted(t_ for t_ in tested if t_ not in lang)
+    ok = not uncovered and not foreign
+    ctx.ob(R, rel, "Lexer.tokeniter :: keep_trailing_newline restores the final line break for exactly the terminators of newline_re", ok,
+           f"terminators {sorted(lang)!r}" if ok else
+           (f"a source ending in {uncovered!r} loses its final newline although keep_trailing_newline is set (stock Jinja2 keeps it)" if uncovered else
+            f"{foreign!r} is treated as a final line break but is none for newline_re"), site.lineno)
 
 
 def _lexer_slots(ctx, R, tree, rel):
@@ -259,6 +322,43 @@ def _describe(alt):
     return " ".join(out)
 
 
+def _prefix_args(local_fns, call, tok, tokvals, fold, depth=0):
+    """expressions that reach nodes.Const(..) - the argument of the lineprefix filter - when the wrapper `call` runs; parameters are
+    bound to the call's arguments, the begin token is spelled TOK"""
+    out = set()
+    fn = local_fns.get(call.func.id) if isinstance(call.func, ast.Name) else None
+    if fn is None or depth > 3:
+        return out
+    params = [a.arg for a in fn.args.args]
+    bind = {p_: a for p_, a in zip(params, call.args)}
+
+    def spell(e):
+        e = pyfront.subst_locals(fn, e)
+
+        class S(ast.NodeTransformer):
+            def visit_Name(self, node):
+                return bind.get(node.id, node)
+        import copy
+        e2 = S().visit(copy.deepcopy(e))
+        return e2
+    stack = list(ast.iter_child_nodes(fn))
+    while stack:
+        n_ = stack.pop()
+        if isinstance(n_, (ast.FunctionDef, ast.Lambda)):
+            continue
+        stack.extend(ast.iter_child_nodes(n_))
+        if isinstance(n_, ast.Call) and ast.unparse(n_.func) == "nodes.Const" and n_.args:
+            e = spell(n_.args[0])
+            if isinstance(e, ast.Name) and e.id in tokvals:
+                out |= set(tokvals[e.id])
+            else:
+                out.add(ast.unparse(fold(e)).replace(tok, "TOK"))
+        elif isinstance(n_, ast.Call) and isinstance(n_.func, ast.Name) and n_.func.id in local_fns and n_.func.id != call.func.id:
+            inner = ast.Call(func=n_.func, args=[spell(a) for a in n_.args], keywords=[])
+            out |= _prefix_args(local_fns, inner, tok, tokvals, fold, depth + 1)
+    return out
+
+
 def rule_parser(ctx):
     R = "R-C19-PARSER"
     ctx.rule(
@@ -274,62 +374,183 @@ def rule_parser(ctx):
             sub = n
     if sub is None:
         raise AnalysisError("anchor missing: Parser.subparse")
-    calls = [c for c in ast.walk(sub) if isinstance(c, ast.Call) and isinstance(c.func, ast.Name) and c.func.id == "autoindent"]
-    if not calls:
-        raise AnalysisError("anchor missing: autoindent() calls in subparse")
-    # the marker test: `token.value.endswith('*')`, possibly wrapped in a local predicate function
-    marker_fns = {f_.name for f_ in ast.walk(sub) if isinstance(f_, ast.FunctionDef) and f_ is not sub and len(f_.args.args) == 1 and any(
-        isinstance(r, ast.Return) and r.value is not None and f"{f_.args.args[0].arg}.value.endswith('*')" in ast.unparse(r.value) for r in ast.walk(f_))}
+    local_fns = {f_.name: f_ for f_ in ast.walk(sub) if isinstance(f_, ast.FunctionDef) and f_ is not sub}
 
-    def is_marker(e):
-        return e == "token.value.endswith('*')" or any(e == f"{mf}(token)" for mf in marker_fns)
+    def own_nodes(fn):
+        """nodes of fn that are not inside a nested def"""
+        out, stack = [], list(ast.iter_child_nodes(fn))
+        while stack:
+            n_ = stack.pop()
+            if isinstance(n_, (ast.FunctionDef, ast.Lambda)):
+                continue
+            out.append(n_)
+            stack.extend(ast.iter_child_nodes(n_))
+        return out
 
-    for c in calls:
-        g = pyfront.guards_of(sub, c) or ()
-        terms = pyfront.guard_terms(g)
-        ok = any(is_marker(e) and pol for e, pol in terms)
-        ctx.ob(R, rel, f"subparse :: autoindent() call at `{ast.unparse(pyfront.enclosing_stmt(c, pyfront.parent_map(sub)))[:60]}`", ok,
-               "" if ok else f"autoindent applied under {terms}: unmarked constructs are wrapped in lineprefix", c.lineno)
-    # lineprefix nodes only inside autoindent
+    def has_lp(node):
+        return any(isinstance(x, ast.Constant) and x.value == "lineprefix" for x in ast.walk(node))
+
+    def builds(fn, seen=()):
+        nn = own_nodes(fn)
+        if any(isinstance(x, ast.Constant) and x.value == "lineprefix" for x in nn):
+            return True
+        return any(isinstance(c, ast.Call) and isinstance(c.func, ast.Name) and c.func.id in local_fns and c.func.id not in seen
+                   and builds(local_fns[c.func.id], seen + (c.func.id,)) for c in nn)
+    wrappers = {n_ for n_, f_ in local_fns.items() if builds(f_)}
+    # every place that names the filter is inside subparse (its body or its local helpers)
+    n_lp = 0
     for n in ast.walk(tree):
         if isinstance(n, ast.Constant) and n.value == "lineprefix":
-            # find enclosing function
-            encl = None
-            for f in ast.walk(tree):
-                if isinstance(f, ast.FunctionDef) and any(x is n for x in ast.walk(f)):
-                    if encl is None or any(x is f for x in ast.walk(encl)):
-                        encl = f
-            ok = encl is not None and encl.name == "autoindent"
-            ctx.ob(R, rel, f"'lineprefix' node built in {encl.name if encl else '?'}", ok,
-                   "" if ok else "lineprefix filter nodes are created outside autoindent", n.lineno)
-    # the prefix handed to lineprefix is the token text in front of the three marker characters (`{{*` / `{%*`)
-    ai = next((f_ for f_ in ast.walk(sub) if isinstance(f_, ast.FunctionDef) and f_.name == "autoindent"), None)
-    if ai is None:
-        raise AnalysisError("anchor missing: autoindent() in subparse")
-    tokp = ai.args.args[1].arg if len(ai.args.args) > 1 else "token"
-    consts = [c for c in ast.walk(ai) if isinstance(c, ast.Call) and ast.unparse(c.func) == "nodes.Const" and c.args]
-    args = {ast.unparse(pyfront.subst_locals(ai, c.args[0])) for c in consts}
-    ok = args == {f"{tokp}.value[:-3]"}
+            n_lp += 1
+            inside = any(x is n for x in ast.walk(sub))
+            ctx.ob(R, rel, "the lineprefix filter node is built by subparse only", inside,
+                   "" if inside else "lineprefix filter nodes are created outside subparse's marker handling", n.lineno)
+    if n_lp == 0:
+        raise AnalysisError("anchor missing: construction of the lineprefix filter node in parser.py")
+
+    # the two branches of the token dispatch
+    def branch(kind):
+        for n in ast.walk(sub):
+            if isinstance(n, ast.If) and isinstance(n.test, ast.Compare) and len(n.test.comparators) == 1 and isinstance(n.test.comparators[0], ast.Constant) \
+                    and n.test.comparators[0].value == kind and isinstance(n.test.left, ast.Attribute) and n.test.left.attr == "type" and isinstance(n.test.left.value, ast.Name):
+                return n.test.left.value.id, n.body
+        raise AnalysisError(f"anchor missing: the {kind} branch of subparse")
+
+    def fold(e):
+        """len('<literal>') -> its value"""
+        class F(ast.NodeTransformer):
+            def visit_Call(self, node):
+                self.generic_visit(node)
+                if isinstance(node.func, ast.Name) and node.func.id == "len" and len(node.args) == 1 and isinstance(node.args[0], ast.Constant) and isinstance(node.args[0].value, str):
+                    return ast.Constant(len(node.args[0].value))
+                return node
+        import copy
+        return ast.fix_missing_locations(F().visit(copy.deepcopy(e)))
+
+    # a "prefix helper": one parameter (the begin token); every return that is not None sits under the marker test of that token
+    def prefix_helper(fn):
+        if len(fn.args.args) != 1:
+            return None
+        q = fn.args.args[0].arg
+        vals, has_none = [], False
+        for st, g in pyfront.walk_guarded(fn.body):
+            if isinstance(st, ast.Return):
+                if st.value is None or (isinstance(st.value, ast.Constant) and st.value.value is None):
+                    has_none = True
+                    continue
+                terms = pyfront.guard_terms([(pyfront.subst_locals(fn, t_), p_) for t_, p_ in g])
+                if not any(e == f"{q}.value.endswith('*')" and pol for e, pol in terms):
+                    return None
+                vals.append(ast.unparse(fold(pyfront.subst_locals(fn, st.value))).replace(q, "TOK"))
+        return vals if vals and has_none else None
+    prefix_helpers = {n_: prefix_helper(f_) for n_, f_ in local_fns.items()}
+    prefix_helpers = {k: v for k, v in prefix_helpers.items() if v}
+    marker_fns = {f_.name for f_ in local_fns.values() if len(f_.args.args) == 1 and f_.name not in prefix_helpers and any(
+        isinstance(r, ast.Return) and r.value is not None and f"{f_.args.args[0].arg}.value.endswith('*')" in ast.unparse(r.value) for r in ast.walk(f_))}
+
+    prefix_exprs = set()    # what reaches nodes.Const(<prefix>), token spelled TOK
+    n_sinks = 0
+    for kind, parse_fn in (("variable_begin", "parse_tuple"), ("block_begin", "parse_statement")):
+        tok, body_ = branch(kind)
+
+        def marker_of(terms, pvars):
+            for e, pol in terms:
+                if e == f"{tok}.value.endswith('*')" or any(e == f"{mf}({tok})" for mf in marker_fns):
+                    return pol
+                if e.replace(" ", "") == f"{tok}.valueand{tok}.value.endswith('*')":
+                    return pol
+                if not pol and f"{tok}.value.endswith('*')" in e:
+                    try:
+                        bo = ast.parse(e, mode="eval").body
+                    except SyntaxError:
+                        bo = None
+                    if isinstance(bo, ast.BoolOp) and isinstance(bo.op, ast.And):
+                        rest = [ast.unparse(v_) for v_ in bo.values if ast.unparse(v_) not in (f"{tok}.value.endswith('*')", f"{tok}.value")]
+                        if rest:
+                            return "entangled"   # not (marker and X): a marked construct takes this path whenever X is false
+                for pv in pvars:
+                    if e == f"{pv} is not None":
+                        return pol
+                    if e == f"{pv} is None":
+                        return not pol
+            return None
+
+        for path in pyfront.enumerate_paths(body_):
+            env, pvars, tokvals = {}, set(), {}
+            sinks = []
+
+            def classify(e):
+                if isinstance(e, ast.Name):
+                    return env.get(e.id, ("other", e.id))
+                if isinstance(e, ast.Call) and isinstance(e.func, ast.Attribute) and e.func.attr == parse_fn and ast.unparse(e.func.value) == "self":
+                    return ("parsed",)
+                if isinstance(e, ast.List) and len(e.elts) == 1 and classify(e.elts[0])[0] == "parsed":
+                    return ("list1",)
+                if isinstance(e, ast.IfExp) and ast.unparse(e.test).startswith("isinstance(") and classify(e.body)[0] == "parsed" and classify(e.orelse)[0] == "list1":
+                    return ("aslist",)
+                if isinstance(e, ast.Call) and isinstance(e.func, ast.Name) and e.func.id in wrappers:
+                    inner = [classify(a) for a in e.args]
+                    return ("wrapped", e) if any(c_[0] in ("parsed", "list1", "aslist") for c_ in inner) else ("other", ast.unparse(e))
+                if isinstance(e, ast.List) and len(e.elts) == 1 and classify(e.elts[0])[0] == "wrapped":
+                    return ("wrapped1", classify(e.elts[0])[1])
+                if has_lp(e) and any(classify(a)[0] in ("parsed", "list1", "aslist") for a in ast.walk(e) if isinstance(a, ast.Name)):
+                    return ("wrapped", e)
+                return ("other", ast.unparse(e))
+
+            for st in path.stmts:
+                if isinstance(st, ast.Assign) and len(st.targets) == 1 and isinstance(st.targets[0], ast.Name):
+                    v = st.value
+                    if isinstance(v, ast.Call) and isinstance(v.func, ast.Name) and v.func.id in prefix_helpers and [ast.unparse(a) for a in v.args] == [tok]:
+                        pvars.add(st.targets[0].id)
+                        tokvals[st.targets[0].id] = prefix_helpers[v.func.id]
+                        env[st.targets[0].id] = ("prefix", st.targets[0].id)
+                    else:
+                        env[st.targets[0].id] = classify(v)
+                elif isinstance(st, ast.Expr) and isinstance(st.value, ast.Call) and st.value.args:
+                    c = st.value
+                    cl = classify(c.args[0])
+                    if cl[0] != "other" and cl[0] != "prefix":
+                        how = "extend" if isinstance(c.func, ast.Attribute) and c.func.attr == "extend" else "append"
+                        sinks.append((how, cl, c))
+            if not sinks:
+                continue
+            terms = path.terms()
+            marked = marker_of(terms, pvars)
+            is_list = next((pol for e, pol in terms if e.startswith("isinstance(") and e.endswith(", list)")), None)
+            for how, cl, c in sinks:
+                n_sinks += 1
+                label = f"subparse :: {kind}: `{ast.unparse(c)[:50]}` " + ("[marked]" if marked else "[unmarked]")
+                if marked == "entangled":
+                    ok = cl[0] in ("wrapped", "wrapped1")
+                    ctx.ob(R, rel, label.replace("[marked]", "[marker test mixed with another condition]") + " adds the construct wrapped in the lineprefix filter", ok,
+                           "" if ok else "the marker test is and-ed with another condition: where that condition is false a construct opened with the auto-indent "
+                           "marker is added without the line prefix", c.lineno)
+                elif marked:
+                    ok = cl[0] in ("wrapped", "wrapped1") and (kind == "variable_begin" or (how == "append") == (cl[0] == "wrapped"))
+                    ctx.ob(R, rel, label + " adds the construct wrapped in the lineprefix filter", ok,
+                           "" if ok else "a construct opened with the auto-indent marker is added without the line prefix", c.lineno)
+                    if ok:
+                        # the prefix argument at this call, resolved through the helper chain
+                        call = cl[1]
+                        if isinstance(call, ast.Call) and isinstance(call.func, ast.Name):
+                            prefix_exprs |= _prefix_args(local_fns, call, tok, tokvals, fold)
+                        else:
+                            for k_ in ast.walk(call):
+                                if isinstance(k_, ast.Call) and ast.unparse(k_.func) == "nodes.Const" and k_.args:
+                                    prefix_exprs.add(ast.unparse(fold(pyfront.subst_locals(sub, k_.args[0]))).replace(tok, "TOK"))
+                else:
+                    if kind == "variable_begin":
+                        ok = cl[0] == "parsed"
+                    else:
+                        ok = (how == "extend" and (cl[0] in ("list1", "aslist") or (cl[0] == "parsed" and is_list is True))) or \
+                             (how == "append" and cl[0] == "parsed" and is_list is False)
+                    ctx.ob(R, rel, label + " adds the parsed construct unchanged (a node list is spliced, a single node appended)", ok,
+                           "" if ok else f"without the marker the construct reaches the body as {cl[0]} via {how} under {terms}: ordinary templates get another node tree than "
+                           "stock Jinja2 builds", c.lineno)
+    ctx.floor(R + ":sinks", n_sinks, 4)
+    ok = prefix_exprs == {"TOK.value[:-3]"}
     ctx.ob(R, rel, "subparse :: the line prefix is the marker token without its three marker characters", ok,
-           "" if ok else f"prefix expressions: {sorted(args)}: the prefix would keep part of the delimiter or lose indentation", ai.lineno)
-    # unmarked branches
-    src_terms = []
-    for st, g in pyfront.walk_guarded(sub.body, (), descend_funcs=False):
-        if isinstance(st, ast.Expr) and isinstance(st.value, ast.Call):
-            t = ast.unparse(st.value)
-            if t in ("body.extend(rv)", "body.append(rv)", "add_data(rv)"):
-                src_terms.append((t, pyfront.guard_terms(g)))
-    have = {t for t, _ in src_terms}
-    ok = "add_data(rv)" in have and bool({"body.extend(rv)", "body.append(rv)"} & have)
-    ctx.ob(R, rel, "subparse :: unmarked statements/expressions are added unchanged", ok, f"found {sorted(have)}", sub.lineno)
-    for t, terms in src_terms:
-        if t.startswith("body."):
-            ok = any((is_marker(e) or "endswith('*')" in e) and not p for e, p in terms)
-            ctx.ob(R, rel, f"subparse :: `{t}` is the not-marked branch", ok, f"guards {terms}", sub.lineno)
-            if t == "body.append(rv)":
-                # a statement that parses to a list of nodes is spliced, not nested: append only under `not isinstance(rv, list)`
-                ok = any(e == "isinstance(rv, list)" and not p for e, p in terms)
-                ctx.ob(R, rel, "subparse :: a single node is appended, a node list is spliced", ok, f"guards {terms}", sub.lineno)
+           "" if ok else f"prefix expressions: {sorted(prefix_exprs)}: the prefix would keep part of the delimiter or lose indentation", sub.lineno)
     # the filter implementation exists and only prefixes non-empty lines... (shape: uses the given prefix only)
     ftree, fpath = _parse_module(ctx, "jinja/jinja2/filters.py")
     dl = [n for n in ast.walk(ftree) if isinstance(n, ast.FunctionDef) and n.name == "do_lineprefix"]
@@ -426,22 +647,47 @@ def rule_ext(ctx, px):
     parse = ja.methods["parse"]
     rets = [r for r in ast.walk(parse.node) if isinstance(r, ast.Return)]
     pparam = [a.arg for a in parse.node.args.args if a.arg != "self"][0]
-    cb = [c for r in rets for c in ast.walk(r.value) if isinstance(c, ast.Call) and ast.unparse(c.func).endswith("CallBlock")]
-    ok = len(rets) == 1 and len(cb) == 1 and len(cb[0].args) >= 3
+    # which statement kinds the compiler runs unconditionally: a visit_<Kind> method that consults require_output_check drops the
+    # node at the top level of a template that extends another one (that is how child templates produce no text of their own)
+    comp = ast.parse((ctx.src / "jinja" / "jinja2" / "compiler.py").read_text())
+    visitors = {fn.name[len("visit_"):]: fn for fn in ast.walk(comp) if isinstance(fn, ast.FunctionDef) and fn.name.startswith("visit_")}
+    dropped = {k for k, fn in visitors.items() if any(isinstance(a_, ast.Attribute) and a_.attr == "require_output_check" for a_ in ast.walk(fn))}
+    if "Output" not in dropped or "CallBlock" not in visitors:
+        raise AnalysisError("anchor missing: visit_Output / require_output_check in the bundled compiler")
+    built = []      # (node class, constructor call) wrapping the _do_assert call
+    for r in rets:
+        for c in ast.walk(r.value):
+            if isinstance(c, ast.Call) and isinstance(c.func, ast.Attribute) and isinstance(c.func.value, ast.Name) and c.func.value.id == "nodes" \
+                    and any(isinstance(x, ast.Call) and ast.unparse(x.func) == "self.call_method" and x.args and isinstance(x.args[0], ast.Constant)
+                            and x.args[0].value == "_do_assert" for a_ in c.args for x in ast.walk(a_)):
+                built.append((c.func.attr, c))
     args_name = None
-    if ok:
-        c0 = cb[0].args[0]
-        ok = isinstance(c0, ast.Call) and ast.unparse(c0.func) == "self.call_method" and len(c0.args) == 2 and isinstance(c0.args[0], ast.Constant) \
-            and c0.args[0].value == "_do_assert" and isinstance(c0.args[1], ast.Name) \
-            and all(isinstance(x, (ast.List, ast.Tuple)) and not x.elts for x in cb[0].args[1:3])
-        if ok:
-            args_name = c0.args[1].id
-    ctx.ob(R, m.rel, "JinjaAssert.parse :: returns an empty CallBlock bound to _do_assert", ok, "" if ok else ast.unparse(rets[0].value) if rets else "no return", parse.node.lineno)
+    kind = built[0][0] if len(built) == 1 else None
+    ok = len(rets) == 1 and kind is not None and kind in visitors and kind not in dropped
+    why = ""
+    if len(rets) != 1 or kind is None:
+        why = (ast.unparse(rets[0].value) if rets else "no return")
+    elif not ok:
+        why = (f"the tag is compiled to nodes.{kind}, which the compiler omits at the top level of a template that extends another "
+               "(require_output_check): an assertion placed there is skipped although an `{% if %}` at the same place is evaluated")
+    if kind is not None:
+        c = built[0][1]
+        cm = next(x for a_ in c.args for x in ast.walk(a_) if isinstance(x, ast.Call) and ast.unparse(x.func) == "self.call_method")
+        if len(cm.args) == 2 and isinstance(cm.args[1], ast.Name):
+            args_name = cm.args[1].id
+        else:
+            ok, why = False, "call_method('_do_assert', <args list>) expected"
+        if kind == "CallBlock" and ok:
+            empty = len(c.args) >= 4 and all((isinstance(x, (ast.List, ast.Tuple)) and not x.elts) or (isinstance(x, ast.Constant) and x.value == "") for x in c.args[1:4])
+            if not empty:
+                ok, why = False, "the call block is not empty"
+    ctx.ob(R, m.rel, "JinjaAssert.parse :: compiles to a statement that runs wherever a conditional runs, bound to _do_assert", ok, why, parse.node.lineno)
     da = ja.methods["_do_assert"]
     dps = [a.arg for a in da.node.args.args if a.arg != "self"]
-    if len(dps) < 3:
-        raise AnalysisError("anchor changed: JinjaAssert._do_assert(expression, message, caller)")
-    d_expr, d_caller = dps[0], dps[-1]
+    if len(dps) < 2:
+        raise AnalysisError("anchor changed: JinjaAssert._do_assert(expression, ...)")
+    d_expr = dps[0]
+    d_caller = "caller" if "caller" in dps else None
     raises = []
     returns = []
     for st, g in pyfront.walk_guarded(da.node.body):
@@ -451,8 +697,12 @@ def rule_ext(ctx, px):
             returns.append((ast.unparse(st.value) if st.value else "None", pyfront.guard_terms(g)))
     ok = raises == [[(d_expr, False)]]
     ctx.ob(R, m.rel, "JinjaAssert._do_assert :: raises exactly when the expression is falsy", ok, f"raise guards: {raises}", da.node.lineno)
-    ok = any(v == f"{d_caller}()" and (t == [] or t == [(d_expr, True)]) for v, t in returns)
-    ctx.ob(R, m.rel, "JinjaAssert._do_assert :: otherwise returns caller()", ok, f"returns: {returns}", da.node.lineno)
+    if kind in (None, "CallBlock", "Output"):
+        # what the callback returns is written into the document: it must be the (empty) caller body or an empty string
+        ok = bool(returns) and all((v in ("''", '""') or (d_caller is not None and v == f"{d_caller}()")) and (t == [] or t == [(d_expr, True)]) for v, t in returns)
+        ctx.ob(R, m.rel, "JinjaAssert._do_assert :: a passing assertion contributes no text", ok, f"returns: {returns}", da.node.lineno)
+    else:
+        ctx.ob(R, m.rel, "JinjaAssert._do_assert :: a passing assertion contributes no text", True, f"nodes.{kind} discards the value", da.node.lineno)
     first_arg = None
     for n in ast.walk(parse.node):
         if isinstance(n, ast.Assign) and isinstance(n.targets[0], ast.Name) and n.targets[0].id == args_name and isinstance(n.value, ast.List) and n.value.elts:
